@@ -210,7 +210,7 @@ class HistoryRun:
                     if st == "timeout":
                         self.problems.append((f"malformed request {rq['method']} is neither answered nor closed", {"request": rq}))
                     # not a model event: a request that fails to parse never reaches a handler
-                elif kind == "restart":
+                elif kind in ("restart", "hup"):
                     ok, dmp = srv_.quiesce()
                     before = dmp
                     target = (dmp or {}).get("saves_done", 0) + 2 if isinstance(dmp, dict) else 2
@@ -223,8 +223,14 @@ class HistoryRun:
                     else:
                         self.problems.append(("the periodic save does not happen", {"dump": dmp}))
                     time.sleep(0.05)
-                    srv_.stop()
-                    srv_ = Server(d, user_dir=ud, save_seconds=1)
+                    if kind == "hup":
+                        # SIGHUP after everything has been saved: a server without a handler ends (and is started again, as by a service
+                        # manager); one that handles the signal (reloads) lives on - either way it then holds what it held before
+                        srv_.proc.send_signal(signal.SIGHUP)
+                        time.sleep(1.0)
+                    if kind == "restart" or not srv_.alive():
+                        srv_.stop()
+                        srv_ = Server(d, user_dir=ud, save_seconds=1)
                     srv_.timeout = 20.0
                     if not srv_.up:
                         self.problems.append(("server does not start again on the user data it wrote", srv_.logtext()))
@@ -272,7 +278,7 @@ def run_histories(items, threads=8):
     def one(a):
         i, it = a
         hr = HistoryRun(*it)
-        if i % 3 == 2:
+        if i % 3 == 2 or it[0].get("transport") == "ws":
             hr.transport = "ws"       # every third history talks over one long-lived WebSocket connection
         return hr.run()
     with concurrent.futures.ThreadPoolExecutor(max_workers=threads) as ex:
